@@ -29,6 +29,7 @@ type peer struct {
 	txBad   map[util.Uint256]bool
 	pre     []*block.Block // blocks served on getblockbyindex
 	lastGBI [2]int
+	since   int64 // log position at which the handshake completed
 	exts    map[util.Uint256]*payload.Extensible      // served on getdata
 	mute    bool                                      // never answers getdata for transactions
 	txOrder string                                    // asc | desc
@@ -84,6 +85,7 @@ func connect(id int, to *node, log *evlog, adv uint32, nonce uint32) (*peer, err
 		return nil, fmt.Errorf("handshake: second message is %s", cmdName(m.Command))
 	}
 	p.emit(map[string]any{"event": "conn", "adv": int(adv)})
+	p.since = log.n.Load()
 	if err := c.send(verackMsg()); err != nil {
 		c.close()
 		return nil, err
